@@ -94,7 +94,7 @@ TABLE = {
              "history is fed to an observational epoch checker: store multiset invariant, batches are stored rows, "
              "no point twice per epoch when b|n, minimal cover otherwise, order changes between epochs. The small "
              "scope n<=8 (12 thorough), b<=n is enumerated exhaustively, compiled and eager.",
-        note="stored rows pairwise distinct; fixed-size batches so an epoch has ceil(n/b) batches; RAR generators excluded (C16/C17)",
+        note="stored rows pairwise distinct; fixed-size batches so an epoch has ceil(n/b) batches; refinement-enabled generators only with b dividing the active count and without refinement steps (steps: C16/C17); multi-network observation loaders row by row against the user's tables",
         ref="DESIGN.md §4 C09, Appendix A.2"),
     "C10": dict(
         technique="runtime oracle monitor: wrappers from the real create_* functions vs independent numpy forward passes",
